@@ -1,8 +1,105 @@
 """C12 -- lifecycle family; see harness/props/_life.py (co-simulation of coq/theories/Life/Model.v
-against the real Nextline + scenario families + the C12 oracle of harness/life_oracles.py)."""
+against the real Nextline + scenario families + the C12 oracle of harness/life_oracles.py).
+
+In addition ("every way the run ends, including a failure to start"): Life/FailStart.v interprets the
+control-flow skeletons of Callback._run/_finish, RunSession.run and relay_events, regenerated on every
+run by translate/callback_skeleton.py; `failstart_runs` provokes each failure point reachable through
+the public plugin API (a plugin whose `run` context raises on entry / on exit, whose on_end_run /
+on_finished hook raises) on the real Nextline and compares what a recording plugin saw with the
+model's trace for the corresponding oracle (vm_compute)."""
+from __future__ import annotations
+
+from .. import common as C
+from .. import life
+from ..common import Violation, cbool, clist, cnat
 from . import _life
 
 PROP_FILES = ['Props/C12.v']
-TRUSTED_BASE = _life.TRUSTED_BASE
-ASSUMPTIONS = _life.ASSUMPTIONS
-correspond, search, replay = _life.make('C12')
+TRANSLATORS = ['callback_skeleton']     # Gen/CallbackSkeleton.v is regenerated from callback.py + session.py on every run
+TRUSTED_BASE = _life.TRUSTED_BASE + [
+    'translate/callback_skeleton.py (ast pattern matcher, fail-closed) and the try/finally + asynccontextmanager semantics of '
+    'Life/FailStart.v; apluggy enters the `run` contexts in pluggy order and exits them in reverse (modelled as nesting)',
+]
+ASSUMPTIONS = _life.ASSUMPTIONS + [
+    'FailStart: an exception is one kind; every await of the run session may raise, plain statements may not; the oracle positions '
+    'of the real runs: 0 user context entry, 1 spawn, 2 on_start_run, 3 process wait, 4 drain, 5 sentinel, 6 monitor, 7 on_end_run, '
+    '8 user context exit, 9 finish trigger (on_finished)',
+]
+_base_correspond, search, replay = _life.make('C12')
+
+# failure point -> (register_failing argument, oracle, needs a child)
+FAIL_POINTS = {
+    'none': (None, [], True),
+    'run_ctx': ('run_ctx', [True], False),
+    'on_end_run': ('on_end_run', [False] * 7 + [True], True),
+    'run_ctx_exit': ('run_ctx_exit', [False] * 8 + [True], True),
+    'on_finished': ('on_finished', [False] * 9 + [True], True),
+}
+HOOK_CODE = {'on_start_run': 1, 'on_end_run': 2, 'on_finished': 3}
+
+
+def failstart_scenarios() -> list[dict]:
+    out = []
+    for name, (what, oracle, child) in FAIL_POINTS.items():
+        steps = [['call', 'A', 'start'], ['settle', 0.15, 12.0]]
+        if what:
+            steps.append(['register_failing', 'F1', what])
+        steps += [['call', 'A', 'run'], ['settle', 0.3, 12.0]]
+        if child:
+            steps += [['child', 'return'], ['settle', 0.4, 12.0]]
+        steps += [['sample']]
+        out.append({'config': {'subscribe': False}, 'steps': steps, 'meta': {'family': 'failstart', 'point': name}, 'timeout': 40})
+    return out
+
+
+def failstart_observe(obs: list[dict]):
+    hooks = [HOOK_CODE[o['hook']] for o in obs if o.get('k') == 'hook' and o.get('hook') in HOOK_CODE]
+    fin = [o for o in obs if o.get('k') == 'hook' and o.get('hook') == 'on_finished']
+    run_arg_none = bool(fin) and all(o.get('run_arg') is False for o in fin)
+    unblocked = any(o.get('k') == 'ret' and o.get('api') == 'run' for o in obs)
+    finished = bool(obs) and obs[-1].get('state') == 'finished'
+    return hooks, run_arg_none, unblocked, finished
+
+
+def failstart_runs(ctx, corr) -> None:
+    scns = failstart_scenarios()
+    logs = life.run_many(scns, par=len(scns))
+    rows = []
+    for scn, obs in zip(scns, logs):
+        corr.evaluations += 1
+        name = scn['meta']['point']
+        _, oracle, _ = FAIL_POINTS[name]
+        if any(o.get('k') in ('runner_dead', 'runner_error', 'scenario_timeout') for o in obs):
+            corr.mismatches.append({'kind': 'failstart-no-observation', 'point': name, 'log': [o for o in obs if o.get('k') in ('runner_dead', 'runner_error', 'scenario_timeout')][:2]})
+            rows.append(None)
+            continue
+        hooks, a, s, f = failstart_observe(obs)
+        corr.extra.setdefault('failstart', {})[name] = {'hooks': hooks, 'run_arg_none_at_on_finished': a, 'run_unblocked': s, 'state_finished': f}
+        # the property text, directly: run_arg withdrawn at on_finished; nothing of the run after on_finished
+        if 3 in hooks and not a:
+            corr.violations.append(Violation(f'failstart:run-arg-at-finished:{name}', f'failure point {name}: on_finished was called with context.run_arg still set',
+                                             {'failstart': name, 'hooks': hooks}))
+        if 3 in hooks and hooks[hooks.index(3) + 1:]:
+            corr.violations.append(Violation(f'failstart:hook-after-finished:{name}', f'failure point {name}: hooks {hooks[hooks.index(3) + 1:]} after on_finished',
+                                             {'failstart': name, 'hooks': hooks}))
+        rows.append(f'({clist(map(cbool, oracle))}, ({clist(map(cnat, hooks))}, {cbool(a)}, {cbool(s)}, {cbool(f)}))')
+    live = [(i, r) for i, r in enumerate(rows) if r is not None]
+    text = ('From NL Require Import Life.FailStart.\nFrom Coq Require Import List. Import ListNotations.\n'
+            'Definition cases : list (list bool * observation) :=\n ' + clist(r for _, r in live) + '.\n'
+            'Eval vm_compute in bad_from 0%nat cases.\n')
+    ok, out = ctx.coq_eval('failstart_cases', text)
+    bad = C.parse_nat_list(out) if ok else None
+    if bad is None:
+        corr.mismatches.append({'kind': 'coq-eval-failed', 'file': 'failstart_cases', 'log': out[-600:]})
+        return
+    for b in bad:
+        i = live[b][0]
+        name = scns[i]['meta']['point']
+        corr.mismatches.append({'kind': 'failstart-model-vs-impl', 'point': name, 'oracle': FAIL_POINTS[name][1],
+                                'observed': corr.extra.get('failstart', {}).get(name)})
+
+
+def correspond(ctx):
+    corr = _base_correspond(ctx)
+    failstart_runs(ctx, corr)
+    return corr
